@@ -38,7 +38,7 @@ func C01(c *core.Ctx) {
 		"error; (A-CTX) every hole must sit in a lexical context compatible with its sanitisation (identifier <= synthesised identifier; \"…\" <= %q-quoted; back-quoted literal or struct tag <= never raw schema " +
 		"text; // comment <= split on newlines; number <= numeric atom), and no schema text may be used as a printf format (A-EVENT). The import set is computed by interpreting the AddImport calls under the " +
 		"same abstract configuration. B-ERR instance: the go/format error in Generator.Sources. Not decided: gofmt idempotence; shapes outside the families (cross-file $ref, goJSONSchema type overrides)."
-	rules := ruleSet("A-SYN", "A-TYP", "A-CTX", "A-EVENT")
+	rules := ruleSet("A-SYN", "A-TYP", "A-CTX", "A-EVENT", "A-INDENT")
 	skel.DepsDir = filepath.Join(c.VerifDir, "checker", "testdata", "emitdeps")
 	cfgs := optionConfigs()
 	n := 0
